@@ -2,7 +2,9 @@ use std::ptr;
 
 use crate::{decorate_for_target, Context};
 
-static mut LOG_RET_AREA: [usize; 5] = [0; 5];
+thread_local! {
+    static LOG_RET_AREA: std::cell::UnsafeCell<[usize; 5]> = const { std::cell::UnsafeCell::new([0; 5]) };
+}
 // One more byte so we can check if we're truncating.
 const CAPACITY: usize = 1001;
 
@@ -99,15 +101,18 @@ decorate_for_target! {
     fn shopify_function_log_new_utf8_str(len: usize) -> *const usize {
         Context::with_mut(|context| {
             let (src_offset, ptr1, len1, ptr2, len2) = context.allocate_log(len);
-            #[allow(static_mut_refs)] // This is _technically_ safe given this is single threaded.
-            unsafe {
-                LOG_RET_AREA[0] = src_offset;
-                LOG_RET_AREA[1] = ptr1 as usize;
-                LOG_RET_AREA[2] = len1;
-                LOG_RET_AREA[3] = ptr2 as usize;
-                LOG_RET_AREA[4] = len2;
-                LOG_RET_AREA.as_ptr()
-            }
+            LOG_RET_AREA.with(|area| {
+                let area = area.get();
+                // Safety: the area is only ever accessed from its own thread, and never borrowed.
+                unsafe {
+                    (*area)[0] = src_offset;
+                    (*area)[1] = ptr1 as usize;
+                    (*area)[2] = len1;
+                    (*area)[3] = ptr2 as usize;
+                    (*area)[4] = len2;
+                }
+                area as *const usize
+            })
         })
     }
 }
